@@ -62,7 +62,7 @@ def closure(g, roots):
 
 def source_hash():
     h = hashlib.sha256()
-    for f in sorted(glob.glob(os.path.join(LEAN, 'D2P', '**', '*.lean'), recursive=True)) + [os.path.join(LEAN, 'lakefile.toml')]:
+    for f in sorted(glob.glob(os.path.join(LEAN, 'D2P', '**', '*.lean'), recursive=True)) + [os.path.join(LEAN, 'lakefile.toml'), os.path.join(ROOT, 'harness', 'obligations.json')]:
         h.update(f.encode()); h.update(open(f, 'rb').read())
     return h.hexdigest()
 
